@@ -292,11 +292,20 @@ class Run:
                 return (f"SetHess (HArr [{3 * n + 3};{3 * n + 3}])", "ValueError",
                         (lambda: setattr(s, "hessian", np.zeros((3 * n + 3, 3 * n + 3)))))
             return "SetHess HOther", "ValueError", (lambda: setattr(s, "hessian", h.tolist()))
+        def own(spec):
+            """a vector that ALIASES the species' own data: ["atom", i] -> the Coordinate object of atom i,
+            ["row", i] -> a view of row i of species.coordinates"""
+            return s.atoms[spec[1]].coord if spec[0] == "atom" else s.coordinates[spec[1]]
         if k == "translate":
+            if "v_own" in op:
+                return "Translate", "ok", (lambda: s.translate(own(op["v_own"])))
             return "Translate", "ok", (lambda: s.translate(np.array(op["v"], dtype=float)))
         if k == "rotate":
-            return "Rotate", "ok", (lambda: s.rotate(axis=np.array(op["axis"], dtype=float), theta=op["theta"],
-                                                     origin=op.get("origin")))
+            def do_rot():
+                axis = own(op["axis_own"]) if "axis_own" in op else np.array(op["axis"], dtype=float)
+                origin = own(op["origin_own"]) if "origin_own" in op else op.get("origin")
+                s.rotate(axis=axis, theta=op["theta"], origin=origin)
+            return "Rotate", "ok", do_rot
         if k == "centre":
             return "Centre", "ok", (lambda: s.centre())
         if k == "coords":
@@ -548,7 +557,13 @@ class Run:
             self.finding(f"{site}|energies-dropped-by-rigid-motion", f"{op} discarded the energies")
         if rigid and err == 0:
             if float(np.abs(dist_matrix(post["coords"]) - dm_before).max()) > 1e-9:
-                self.finding(f"{site}|not-rigid", f"{op} changed interatomic distances")
+                self.finding(f"{site}|not-rigid", f"{op} changed interatomic distances (max change "
+                             f"{float(np.abs(dist_matrix(post['coords']) - dm_before).max()):.3g} A)")
+            if op["k"] == "translate":
+                sh = post["coords"] - pre["coords"]
+                want = pre["coords"][op["v_own"][1]] if "v_own" in op else np.array(op["v"], dtype=float)
+                if float(np.abs(sh - want).max()) > 1e-9:
+                    self.finding(f"{site}|wrong-shift", f"{op}: atoms moved by {sh.tolist()}, requested {want.tolist()}")
         # non-rigid change must discard
         if err == 0 and ((op["k"] in ("coords", "atoms") and op.get("mode") in ("distort", "replace"))):
             if ob["e"] or ob["g"] or ob["h"]:
@@ -660,12 +675,26 @@ def random_op(rng, run):
         return {"k": "grad", "mode": rng.choice(["ok2d", "ok2d", "okflat", "none", "bad", "bad1d", "list"])}
     if r < 0.31:
         return {"k": "hess", "mode": rng.choice(["ok", "ok", "ok", "none", "bad", "bad1d", "badbig", "list"])}
+    def far_atom():
+        # an atom that is not at the origin (a zero vector neither translates nor defines an axis)
+        x = run.coords()
+        cands = [i for i in range(n) if np.linalg.norm(x[i]) > 0.3]
+        return [rng.choice(["atom", "row"]), rng.choice(cands)] if cands else None
     if r < 0.37:
+        fa = far_atom()
+        if fa and rng.random() < 0.3:
+            return {"k": "translate", "v_own": fa}
         return {"k": "translate", "v": vec(3.0)}
     if r < 0.45:
         o = {"k": "rotate", "axis": axis(), "theta": round(rng.uniform(0.2, 2.9), 3)}
-        if rng.random() < 0.4:
+        c = rng.random()
+        fa = far_atom()
+        if c < 0.3:
             o["origin"] = vec(1.5)
+        elif c < 0.5 and fa:
+            o["origin_own"] = fa
+        elif c < 0.65 and fa:
+            o["axis_own"] = fa
         return o
     if r < 0.48:
         return {"k": "centre"}
@@ -912,15 +941,39 @@ def conformer_stream(ctx, nseq, length):
                 c.hessian = h.copy()
             elif r < 0.55:
                 v = [round(ctx.rng.uniform(-2, 2), 3) for _ in range(3)]
-                op = ("translate", v)
-                c.translate(v)
+                if ctx.rng.random() < 0.3:
+                    kk = ctx.rng.randrange(n)
+                    op = ("translate", f"own-row-{kk}")
+                    c.translate(c.coordinates[kk])       # a view of the conformer's internal array
+                else:
+                    op = ("translate", v)
+                    c.translate(v)
             elif r < 0.67:
                 ax, th = [round(ctx.rng.uniform(0.1, 1), 3) for _ in range(3)], round(ctx.rng.uniform(0.3, 2.5), 3)
-                op = ("rotate", ax, th)
-                c.rotate(ax, th)
+                if ctx.rng.random() < 0.3:
+                    kk = ctx.rng.randrange(n)
+                    op = ("rotate", ax, th, f"origin=own-row-{kk}")
+                    c.rotate(ax, th, origin=c.coordinates[kk])
+                else:
+                    op = ("rotate", ax, th)
+                    c.rotate(ax, th)
             elif r < 0.72:
                 op = ("centre",)
                 c.centre()
+            elif r < 0.76:
+                perm = list(range(n))
+                ctx.rng.shuffle(perm)
+                op = ("reorder_atoms", perm)
+                labs0 = [a.label for a in c.atoms]
+                c.reorder_atoms({i: perm[i] for i in range(n)})
+                new_ident, exp = [None] * n, [None] * n
+                for i in range(n):
+                    new_ident[perm[i]], exp[perm[i]] = ident[i], labs0[i]
+                ident = new_ident
+                if [a.label for a in c.atoms] != exp:
+                    found.append((K_CONF_REORDER, f"Conformer.reorder_atoms({perm}): atoms are {[a.label for a in c.atoms]}, "
+                                  f"expected {exp}", list(log) + [list(op)]))
+                    break
             elif r < 0.82:
                 d = np.array([[ctx.rng.choice([-1, 1]) * ctx.rng.uniform(0.05, 0.3) for _ in range(3)] for _ in range(n)]).round(3)
                 op = ("coordinates:=distorted", d.tolist())
@@ -932,7 +985,7 @@ def conformer_stream(ctx, nseq, length):
             else:
                 d = np.array([[ctx.rng.choice([-1, 1]) * ctx.rng.uniform(0.05, 0.3) for _ in range(3)] for _ in range(n)]).round(3)
                 op = ("atoms:=distorted", d.tolist())
-                c.atoms = Atoms([Atom(l, *p) for l, p in zip(BASE[n][0], x + d)])
+                c.atoms = Atoms([Atom(a.label, *p) for a, p in zip(c.atoms, x + d)])
             log.append(list(op))
             x = np.array(c.coordinates, dtype=float)
             e, g, h = pot(x, ident)
@@ -954,6 +1007,89 @@ def conformer_stream(ctx, nseq, length):
                               list(log)))
                 break
     return found
+
+
+# ============================================================================ special inputs (fixed keys)
+K_LAZY_GRAPH = "Species.reorder_atoms|lazy-graph-reordered-twice"
+K_INT_GRAD = "Species.rotate|integer-gradient-truncated"
+K_CONF_REORDER = "Conformer.reorder_atoms|atoms-not-permuted"
+
+
+def special_inputs(ctx):
+    """Inputs outside the sequence generators: a species whose graph was never touched before reorder_atoms,
+    integer-typed result arrays, reorder_atoms on a Conformer.  -> [(key, what, replay)]"""
+    from autode.species.species import Species
+    from autode.atoms import Atom
+    from autode.conformers.conformer import Conformer
+    out = []
+    for n in (3, 4):
+        labels, xyz, _ = BASE[n]
+        maps = [{i: (i + 1) % n for i in range(n)}, {0: 1, 1: 0, **{i: i for i in range(2, n)}}]
+        for mp in maps:
+            # (1) reorder before the graph was ever built: it must be the graph of the reordered molecule
+            s = Species("m", [Atom(l, *c) for l, c in zip(labels, xyz)], 0, 1)
+            s.reorder_atoms(dict(mp))
+            inv = {v: k for k, v in mp.items()}
+            ref = Species("r", [Atom(labels[inv[p]], *xyz[inv[p]]) for p in range(n)], 0, 1)
+            ctx.count("special", ("lazy-graph", n, tuple(mp.items())))
+            got = sorted(tuple(sorted(map(int, e))) for e in s.graph.edges)
+            want = sorted(tuple(sorted(map(int, e))) for e in ref.graph.edges)
+            nl = [s.graph.nodes[i].get("atom_label") for i in range(n)]
+            if got != want or nl != [a.label for a in s.atoms]:
+                out.append((K_LAZY_GRAPH, f"reorder_atoms({mp}) on a species whose graph was never accessed: graph edges {got} "
+                            f"with node labels {nl}, but the reordered molecule {[a.label for a in s.atoms]} has bonds {want}",
+                            {"kind": "special", "case": "lazy-graph", "n_atoms": n, "mapping": list(mp.items())}))
+            # (3) reorder on a conformer
+            c = Conformer(species=Species("m", [Atom(l, *c) for l, c in zip(labels, xyz)], 0, 1), name="c")
+            ident = list(range(n))
+            e, g, h = pot(np.array(xyz), ident)
+            c.energy, c.gradient, c.hessian = e, g.copy(), h.copy()
+            ctx.count("special", ("conformer-reorder", n, tuple(mp.items())))
+            try:
+                c.reorder_atoms(dict(mp))
+                x = np.array(c.coordinates, dtype=float)
+                labs = [a.label for a in c.atoms]
+                exp_labs = [labels[inv[p]] for p in range(n)]
+                if labs != exp_labs or not np.allclose(x, np.array(xyz)[[inv[p] for p in range(n)]]):
+                    # atoms stayed: then the arrays must have stayed too
+                    e2, g2, h2 = pot(x, ident)
+                    stale = [nm for nm, a, b in (("gradient", c.gradient, g2), ("hessian", c.hessian, h2))
+                             if a is not None and not np.allclose(np.asarray(a, dtype=float), b, atol=TOL)]
+                    out.append((K_CONF_REORDER, f"Conformer.reorder_atoms({mp}): atoms are {labs} (expected {exp_labs})"
+                                + (f" while {stale} were permuted and no longer belong to the atoms" if stale else ""),
+                                {"kind": "special", "case": "conformer-reorder", "n_atoms": n, "mapping": list(mp.items())}))
+                else:
+                    e2, g2, h2 = pot(x, [ident[inv[p]] for p in range(n)])
+                    if not (np.allclose(np.asarray(c.gradient, dtype=float), g2, atol=TOL)
+                            and np.allclose(np.asarray(c.hessian, dtype=float), h2, atol=TOL)):
+                        out.append(("Conformer.reorder_atoms|stale-gradient-hessian", f"Conformer.reorder_atoms({mp}) left "
+                                    f"gradient/Hessian that do not belong to the reordered atoms",
+                                    {"kind": "special", "case": "conformer-reorder", "n_atoms": n, "mapping": list(mp.items())}))
+            except Exception as ex:   # noqa
+                out.append((f"Conformer.reorder_atoms|unexpected-{type(ex).__name__}", f"{mp}: {ex}",
+                            {"kind": "special", "case": "conformer-reorder", "n_atoms": n, "mapping": list(mp.items())}))
+        # (2) integer-typed gradient / Hessian through rigid motions and reorder (metamorphic: R G, R H R^T)
+        for dt in (int, np.int32, np.float32):
+            s = Species("m", [Atom(l, *c) for l, c in zip(labels, xyz)], 0, 1)
+            gi = (np.arange(3 * n).reshape(n, 3) * 3 - 7).astype(dt)
+            hi = (np.arange(9 * n * n).reshape(3 * n, 3 * n) % 11 - 5)
+            hi = (hi + hi.T).astype(dt)
+            s.gradient, s.hessian = gi.copy(), hi.copy()
+            axis, th = [0.3, -1.0, 0.6], 0.8
+            s.rotate(axis, th, origin=[0.2, 0.1, -0.4])
+            s.translate([1.0, -2.0, 0.5])
+            rm = rodrigues(axis, th)
+            big = np.kron(np.eye(n), rm)
+            ctx.count("special", ("typed-arrays", n, np.dtype(dt).name))
+            tol = 1e-5 if dt is np.float32 else 1e-9
+            dg = float(np.abs(np.asarray(s.gradient, dtype=float) - gi.astype(float) @ rm.T).max())
+            dh = float(np.abs(np.asarray(s.hessian, dtype=float) - big @ hi.astype(float) @ big.T).max())
+            if dg > tol or dh > tol:
+                out.append((K_INT_GRAD if dg > tol else "Species.rotate|typed-hessian-wrong",
+                            f"gradient/Hessian given as {np.dtype(dt).name} arrays: after rotate the gradient differs from "
+                            f"R.G by {dg:.3g} and the Hessian from R.H.R^T by {dh:.3g}",
+                            {"kind": "special", "case": "typed-arrays", "n_atoms": n, "dtype": np.dtype(dt).name}))
+    return out
 
 
 # ============================================================================ main
@@ -1027,6 +1163,19 @@ def run(ctx):
                 r.n0 = n
                 runs.append(r)
                 account("exhaustive", r, f"{n}-{start_name}")
+    # 2a'. rigid motions whose vector / origin / axis IS one of the species' own coordinate arrays
+    for n in (3, 4):
+        for i in range(n):
+            for kind in ("atom", "row"):
+                for o in ({"k": "translate", "v_own": [kind, i]},
+                          {"k": "rotate", "axis": [0.2, 1.0, 0.5], "theta": 0.9, "origin_own": [kind, i]},
+                          {"k": "rotate", "theta": 1.2, "axis_own": [kind, i]}):
+                    ops = LOADED + [{"k": "translate", "v": [0.3, 0.2, -0.1]}, o, {"k": "query", "q": "freq"},
+                                    dict(o), {"k": "energy", "some": True}]
+                    r = run_sequence(n, ops)
+                    r.n0 = n
+                    runs.append(r)
+                    account("self-aliased", r, f"{n}")
     ctx.log(f"exhaustive sequences: {len(runs)} ({sum(len(r.steps) for r in runs)} steps), findings so far {len(findings)}")
     # 2b. random sequences
     nrand = 1200 if full else 120
@@ -1046,6 +1195,9 @@ def run(ctx):
     # 4. conformers
     for key, what, log in conformer_stream(ctx, 120 if full else 25, 14):
         findings.append((key, what, {"kind": "conformer", "ops": log}))
+    # 4'. special inputs
+    for key, what, rep in special_inputs(ctx):
+        findings.append((key, what, rep))
     # report findings (shrunk sequences)
     n_viol0 = len(ctx.violations)
     seen = set()
@@ -1125,6 +1277,11 @@ def replay(ctx, obj):
     if rep.get("kind") == "conformer":
         out = conformer_stream(ctx, 40, 14)
         for key, what, _ in out[:5]:
+            print("FINDING", key, ":", what)
+        return 1 if out else 0
+    if rep.get("kind") == "special":
+        out = special_inputs(ctx)
+        for key, what, _ in out:
             print("FINDING", key, ":", what)
         return 1 if out else 0
     print("nothing to replay for", rep.get("kind"))
